@@ -515,6 +515,19 @@ fn cancel_body(sc: &Scen) {
                     }
                 }
             }
+            // ... and by no other: the single cancel() of the scenario may unwind only the
+            // computation it hit; once that computation has returned or unwound the token is
+            // reset and every other request of the handle runs normally (seeded change C21-r5:
+            // the token survives a computation that returns normally).
+            for (j, o) in all.iter().enumerate() {
+                if Some(j) != must_cancel && matches!(o, Out::Panic(Pk::CancelLocal)) {
+                    viol(
+                        &format!("spurious-cancellation:{}", sc.name),
+                        format!("request #{j} of the handle ended in a local cancellation although the only cancel() hit {}", match must_cancel { Some(k) => format!("request #{k}"), None => "a computation that returned without another tracked-function request (token reset)".to_string() }),
+                    );
+                    return;
+                }
+            }
         }
     }
     // the request right after a cancelled one runs normally
